@@ -3,6 +3,7 @@ mod crash;
 mod e4;
 mod faultinj;
 mod mtsmoke;
+mod ops;
 mod planx;
 mod sqlrun;
 mod util;
@@ -15,6 +16,7 @@ fn main() {
         "sql" => sqlrun::main(&args[2..]),
         "e4" => e4::main(&args[2..]),
         "crash" => crash::main(&args[2..]),
+        "ops" => ops::main(&args[2..]),
         "plan" => planx::main(&args[2..]),
         "fault" => faultinj::main(&args[2..]),
         "mtsmoke" => mtsmoke::main(&args[2..]),
